@@ -9,6 +9,8 @@ and byte string; nothing is bounded.
                        lost (for any trailing bytes `rest`; fuel = the nesting depth of the value suffices)
   `enc_dec`            every byte string the schema-driven decoder accepts is the canonical encoding of a
                        well-typed value followed by the untouched rest: re-encoding gives back the same bytes
+  `dec_iff`            both together: the decoder accepts `bs` as `(v, rest)` for some fuel iff `v` is well-typed and
+                       `bs = enc v ++ rest`
   `enc_prefix_free`, `enc_injective`    distinct values of a format have distinct encodings, none a prefix of another
   `dec_fuel_irrelevant`                 the decoded value does not depend on the fuel (whenever two fuels both succeed)
   `dec_total_bounded`, `str_len_checked`, `seq_len_bounded`     (used by C12) consumed bytes = size of the value;
@@ -35,6 +37,16 @@ theorem dec_enc (R : Registry) (f : Format) (v : Value) (rest : Bytes) (fuel : N
 theorem enc_dec (R : Registry) (f : Format) (fuel : Nat) (bs rest : Bytes) (v : Value)
     (h : dec fuel R f bs = some (v, rest)) : enc v ++ rest = bs ∧ wt R f v = true :=
   dec_sound h
+
+/-- The decoder is exactly the inverse image of the encoder on well-typed values: "the schema accepts `bs` as `v`
+    leaving `rest`" (what the oracle evaluates with `dec`) means `bs = enc v ++ rest` for a value `v` of the format. -/
+theorem dec_iff (R : Registry) (f : Format) (bs rest : Bytes) (v : Value) :
+    (∃ fuel, dec fuel R f bs = some (v, rest)) ↔ (wt R f v = true ∧ enc v ++ rest = bs) := by
+  constructor
+  · rintro ⟨fuel, h⟩
+    exact ⟨(enc_dec R f fuel bs rest v h).2, (enc_dec R f fuel bs rest v h).1⟩
+  · rintro ⟨hw, rfl⟩
+    exact ⟨depth v, dec_enc R f v rest (depth v) hw (Nat.le_refl _)⟩
 
 theorem enc_prefix_free (R : Registry) (f : Format) (v w : Value) (r s : Bytes)
     (hv : wt R f v = true) (hw : wt R f w = true) (e : enc v ++ r = enc w ++ s) : v = w ∧ r = s := by
